@@ -47,6 +47,39 @@ func Install() {
 
 func Uninstall() { sio.VerifSetSink(nil) }
 
+// InstallLocks records the calls of the library's mutexes (internal/sync under the verif tag) as
+// {"ev":"lk","op":"req|acq|rel","mode":"w|r","m":instance,"g":goroutine,"site":"file:line"}.
+func InstallLocks() {
+	sio.VerifSetLockSink(func(op, mode string, m any, pc uintptr) {
+		gid := GoID()
+		mu.Lock()
+		defer mu.Unlock()
+		site, ok := sites[pc]
+		if !ok {
+			fr, _ := runtime.CallersFrames([]uintptr{pc}).Next()
+			f := fr.File
+			if i := strings.LastIndex(f, "socket.io-go/"); i >= 0 {
+				f = f[i+len("socket.io-go/"):]
+			} else if i := strings.LastIndex(f, "/repo/"); i >= 0 {
+				f = f[i+len("/repo/"):]
+			}
+			site = f + ":" + strconv.Itoa(fr.Line)
+			sites[pc] = site
+		}
+		seq++
+		g, ok := gids[gid]
+		if !ok {
+			g = len(gids) + 1
+			gids[gid] = g
+		}
+		recs = append(recs, Rec{"seq": seq, "ev": "lk", "op": op, "mode": mode, "m": idLocked(m), "g": g, "site": site})
+	})
+}
+
+func UninstallLocks() { sio.VerifSetLockSink(nil) }
+
+var sites = map[uintptr]string{}
+
 // SetFilter restricts which hook events are recorded (nil = all).
 func SetFilter(f func(name string) bool) { mu.Lock(); filter = f; mu.Unlock() }
 
